@@ -747,6 +747,11 @@ def run_task(t):
     return fails, counts, desc, sample
 
 
+def _worker_init():
+    # the parent's SIGTERM handler must not be inherited: Pool.terminate() relies on SIGTERM killing a worker outright
+    signal.signal(signal.SIGTERM, signal.SIG_DFL)
+
+
 def main():
     t0 = time.time()
     SCRATCH[0] = tempfile.mkdtemp(prefix='pytough-', dir='/var/tmp')
@@ -764,7 +769,7 @@ def main():
         if base.endswith('~') or base.endswith('.npy') or base.endswith('.pdat') or base.startswith('MESH'): continue
         tasks.append(dict(task='shipped', file=os.path.relpath(f, os.path.join(REPO, 'tests', 'data'))))
     failures, counts, distinct, samples = [], dict((c, 0) for c in CONTRACTS), set(), []
-    pool = mp.Pool(min(16, os.cpu_count() or 1))
+    pool = mp.Pool(min(16, os.cpu_count() or 1), initializer=_worker_init)
     try:
         for fails, cnt, desc, sample in pool.imap(run_task, tasks, chunksize=4):
             failures.extend(fails)
